@@ -22,6 +22,11 @@ SPEC = dict(
          'wide: one document or tree with 4,200-9,000 (every 4th round 12,000-20,000) elements in one of 8 shapes (flat empty elements as <x/>, <x />, <x></x>, rows x empty cells, tree built through '
          'the Element interface, siblings with text/child content, nesting 2-7 with mostly content-less leaves, many generated elements of the gen grammar below one root, and on ONE Parser object '
          'a 1000-deep document, a truncated one, the flat document, the deep one again) -> accepted, same tree as the model, toString -> parse -> same tree, 3 random prefixes). '
+         'exh-p: one string of up to N tokens <!DOCTYPE a, LF, CR, >, <a>, </a>, <a, [, ], <?p, ?>, <!--, -->, <![CDATA[, ]]>, "; prolog: one generated text in which things a tolerant parser might step over '
+         '(document type declaration with SYSTEM/PUBLIC literals and an internal subset, XML declaration, processing instructions, comments, CDATA sections) stand in front of, inside or behind a '
+         'root element that then fails or succeeds, with LF / CR / CRLF inside every kind of token (13 kinds) -> the text, every prefix and 6 damaged variants: no verdict on accepted/rejected, only safety and position inside the text; '
+         'alias: the text argument of parse is owned by the tree of the output element (7 classes: attribute value / text child of the output element or of a descendant, a String sharing such a payload, '
+         'output element = child of the owner; output tree with prior attributes and content) -> outcome, reported position and whole resulting tree equal to those of parsing an independent copy into an identically built element. '
          'Every text handed to the parser lives in a heap block of exactly len+1 bytes; every call runs under a 5 s CPU budget and a 64 MiB live-heap growth cap (ASan malloc hook; wide: plus 16 KiB per element of the document); '
          'on failure the reported (line, column) must designate a byte, line end or text end. distinct = hash of index / model tree / operation sequence; non-trivial = >= 2 bytes, >= 3 nodes, '
          'or (variant) at least one shared payload that was then modified through one handle.',
@@ -29,6 +34,8 @@ SPEC = dict(
                  'valid documents: hexadecimal character references, CDATA, DOCTYPE and raw line breaks inside attribute values are not generated (the parser does not claim them); '
                  'comments inside a tag are only placed behind at least one white-space character; white space directly next to a comment inside text is not generated (its attribution is ambiguous)',
                  'parse results on documents with comments are compared after merging adjacent text items (x<!--c-->y may be one or two text items); round-trip comparison is strict',
+                 'alias mode: the reference is the same library on an independent copy of the text (whether parse appends to or replaces prior content of the output element is not judged); '
+                 'not generated: text = the output element\'s own type string, text = value of an attribute whose name occurs in the text (locations parse has to write)',
                  'Xml::Parser::parse(const char*, Element&) is declared but not defined in the library (link error) and therefore cannot be driven; the other three entry points are',
                  'fallback build (-DVERIF_NO_PRIVATE): the toElement state class shared/unshared of the variant mode comes from the harness\'s own record of which handles were copied from one '
                  'another; the probe of the operator= finding then relies on the sanitizer instead of reading the reference count'],
@@ -44,17 +51,28 @@ SPEC = dict(
         job('variant', 'h_xml', 'variant', cases={Q: 8000, T: 200000}, procs=16),
         job('wide', 'h_xml', 'wide', cases={Q: 64, T: 960}, procs=16,
             env={'ASAN_OPTIONS': ASAN_OPTIONS + ':quarantine_size_mb=32'}),   # trees of 5 KiB blocks: the default 256 MiB quarantine only costs page faults here
+        job('exh-p', 'h_xml', 'exh-p', cases=-1, scale={Q: 4, T: 5}, procs=16),
+        job('prolog', 'h_xml', 'prolog', cases={Q: 1600, T: 32000}, procs=16),
+        job('alias', 'h_xml', 'alias', cases={Q: 7000, T: 140000}, procs=16),
     ],
     floors={Q: dict(ops=1000000, parses=500000, positions_checked=400000, prefix_parses=100000, mutation_parses=30000, roundtrips=8000, rt_bytes_compared=200000, rt_texts_with_leading_whitespace=1000,
                     valid_documents_compared=1000, value_nodes_compared=10000, comments_next_to_text=1000, comments_inside_tags=500, documents_with_processing_instruction=300,
                     deep_parses=48, deep_roundtrips=10, max_nesting_depth=1000, variant_ops=200000, op_copy_assign=10000, op_mutate_shared_element=3000, op_assign_own_child=500,
                     op_element_copy=1000, malloc_hook_calls=1000000, wide_cases=64, wide_documents_compared=60, wide_roundtrips=48, wide_trees_built=8, reused_parser_sequences=8,
                     wide_nodes_compared=800000, wide_elements_without_content=250000, max_elements_without_content_in_one_document=12000, max_siblings_in_one_element=12000,
-                    **{'set:wide_patterns': 8, 'set:error_messages': 7, 'set:rt_char_classes': 11, 'set:rt_byte_values': 255, 'set:toElement_states': 3}),
+                    prolog_cases=1600, doctype_documents=1000, doctype_documents_with_line_break_inside=800, doctype_documents_with_internal_subset=400, cdata_documents=80,
+                    prolog_positions_checked=100000, prolog_positions_checked_behind_line_1=60000, prolog_damaged_parses=9600, exh_parses=700000,
+                    alias_cases=6900, alias_results_compared=6900, alias_nodes_compared=50000, alias_output_tree_with_prior_state=4000, alias_accepted=2000, alias_rejected=1500,
+                    **{'set:wide_patterns': 8, 'set:error_messages': 7, 'set:rt_char_classes': 11, 'set:rt_byte_values': 255, 'set:toElement_states': 3,
+                       'set:linebreaks_inside_tokens': 39, 'set:prolog_constructs': 6, 'set:alias_classes': 7, 'set:alias_text_kinds': 6}),
             T: dict(ops=15000000, parses=12000000, positions_checked=10000000, prefix_parses=3000000, mutation_parses=900000, roundtrips=200000, rt_bytes_compared=5000000, rt_texts_with_leading_whitespace=30000,
                     valid_documents_compared=30000, value_nodes_compared=400000, comments_next_to_text=20000, comments_inside_tags=10000, documents_with_processing_instruction=5000,
                     deep_parses=480, deep_roundtrips=100, max_nesting_depth=1000, variant_ops=5000000, op_copy_assign=250000, op_mutate_shared_element=75000, op_assign_own_child=10000,
                     op_element_copy=25000, malloc_hook_calls=10000000, wide_cases=960, wide_documents_compared=900, wide_roundtrips=720, wide_trees_built=120, reused_parser_sequences=120,
                     wide_nodes_compared=12000000, wide_elements_without_content=4000000, max_elements_without_content_in_one_document=18000, max_siblings_in_one_element=18000,
-                    **{'set:wide_patterns': 8, 'set:error_messages': 7, 'set:rt_char_classes': 11, 'set:rt_byte_values': 255, 'set:toElement_states': 3})},
+                    prolog_cases=32000, doctype_documents=20000, doctype_documents_with_line_break_inside=16000, doctype_documents_with_internal_subset=8000, cdata_documents=1600,
+                    prolog_positions_checked=2000000, prolog_positions_checked_behind_line_1=1200000, prolog_damaged_parses=192000, exh_parses=10000000,
+                    alias_cases=139000, alias_results_compared=139000, alias_nodes_compared=1000000, alias_output_tree_with_prior_state=80000, alias_accepted=40000, alias_rejected=30000,
+                    **{'set:wide_patterns': 8, 'set:error_messages': 7, 'set:rt_char_classes': 11, 'set:rt_byte_values': 255, 'set:toElement_states': 3,
+                       'set:linebreaks_inside_tokens': 39, 'set:prolog_constructs': 6, 'set:alias_classes': 7, 'set:alias_text_kinds': 6})},
 )
